@@ -8,11 +8,11 @@ from . import common
 ID = 'C04'
 LEVEL = 'fault_enumeration'
 TIERS = {
-    'quick': {'cases': 5 + 512 + 636 + 220, 'wall': 120, 'chunk': 4},
-    'thorough': {'cases': 5 + 512 + 636 + 6000, 'wall': 1500, 'chunk': 4},
+    'quick': {'cases': 5 + 512 + 636 + 40 + 220, 'wall': 120, 'chunk': 4},
+    'thorough': {'cases': 5 + 512 + 636 + 40 + 6000, 'wall': 1500, 'chunk': 4},
 }
 RULE = ('cases 0..4: stack array literals larger than a 16-bit word can address (65600 bytes, 32800 ints, 70000 bools, '
-        '3 x 30000 bytes, 3 x 12000 ints in one frame) must be rejected or end in stack_overflow. Cases 517..1152: the STALE-GUARD MATRIX (seed independent): deep call x array kind x length x sequence of later locals x {main, callee}, each with the stack-size axis enumerated. Cases 5..516: the BAD-LENGTH MATRIX (seed independent): a dynamic array of each element type x word size '
+        '3 x 30000 bytes, 3 x 12000 ints in one frame) must be rejected or end in stack_overflow. Cases 517..1152: the STALE-GUARD MATRIX (seed independent): deep call x array kind x length x sequence of later locals x {main, callee}, each with the stack-size axis enumerated; then 40 fixed nested-index programs. Cases 5..516: the BAD-LENGTH MATRIX (seed independent): a dynamic array of each element type x word size '
         '{2,3,4,8} x 16 negative / minimal / maximal / wrapping run-time lengths x {local, callee}, declared next '
         'to a live array literal, stored into and read back, at 14 stack sizes 6..1200 words: every run must end in '
         'stack_overflow before any store, with the monitors silent. Further cases: an array-heavy program (array literals whose elements contain allocating calls, dynamic '
@@ -333,7 +333,12 @@ def nested_index_prog(rnd, W):
     for _ in range(rnd.randrange(3, 7)):
         c = rnd.randrange(8)
         d = rnd.choice((1, 2, 2, 3))
-        if c == 0:
+        if c == 0 and rnd.random() < 0.5:
+            # the index is a `.length` whose own operand needs the third register (bit / string lookup)
+            inner = rnd.choice((is_(idx('bits', T(d - 1)), 'int'), bin_('%', is_(idx('s', T(d - 1)), 'int'), I(4)),
+                                is_(idx('ba', T(d - 1)), 'int')))
+            body += [write(idx(idx('ws', T(d)), ln(idx('ws', inner)))), write(C(' '))]
+        elif c == 0:
             body += [write(idx(idx('ws', T(d)), T(d))), write(C(' '))]
         elif c == 1:
             body += [write(idx('ia', T(d))), write(C(' '))]
@@ -432,6 +437,7 @@ BADLEN = [(el, n, W, where) for el in ('int', 'byte', 'bool', 'string') for W in
           for where in ('local', 'callee')]
 N_BADLEN = len(BADLEN)
 N_FRAMEFIX = len(STALE)     # 636
+N_NESTFIX = 40
 
 
 def badlen_case(k):
@@ -547,8 +553,15 @@ def case(seed, idx, tier):
         W = (2, 3, 4, 8)[idx % 4]
         p, argv = stale_prog(STALE[idx], W)
         kind, twin = 'stale', None
+    elif idx < N_FRAMEFIX + N_NESTFIX:
+        # a fixed set of nested-index programs (seed independent)
+        import random as _random
+        rnd = _random.Random(9000 + idx)
+        W = (2, 3, 4, 8)[idx % 4]
+        p, argv = nested_index_prog(rnd, W)
+        kind, twin = 'nested', None
     else:
-        idx -= N_FRAMEFIX
+        idx -= N_FRAMEFIX + N_NESTFIX
         rnd, p, argv, W, kind, twin = make_case(seed, idx)
     res = common.new_result()
     # generous run first
